@@ -2,7 +2,7 @@ import S3V.Base.Bytes
 import S3V.Model.DtoText
 import S3V.Model.DtoCivil
 /-!
-# Model of `s3s::dto::Timestamp` (crates/s3s/src/dto/timestamp.rs, after commits b76964b, 4f99c94 and 62f4e8c)
+# Model of `s3s::dto::Timestamp` (crates/s3s/src/dto/timestamp.rs, after commits b76964b, 4f99c94 and b7ef08a)
 
 and of the parts of `time` 0.3.41 it calls:
 * `OffsetDateTime::parse(s, &Rfc3339)` = `Rfc3339::parse_offset_date_time` (parsing/parsable.rs:611),
@@ -135,7 +135,7 @@ def toUtc (t : Ts) : Option (Int × Nat × Nat × Nat) :=
   let f := utcFields t.unix
   if -9999 ≤ f.1 && f.1 ≤ 9999 then some f else none
 
-/-- the `DateTime` arm of `Timestamp::parse` (since 62f4e8c): `time`'s RFC 3339 parser, then
+/-- the `DateTime` arm of `Timestamp::parse` (since b7ef08a): `time`'s RFC 3339 parser, then
     `match ans.checked_to_offset(UTC) { Some(utc) if (0..=9999).contains(&utc.year()) => ans, _ => Err(Overflow) }` —
     a text whose instant, expressed in UTC, is outside the years 0000 … 9999 is refused (both text forms are
     written in UTC with a four-digit year; before, `9999-12-31T23:59:59-01:00` was accepted and `fmt_timestamp`
